@@ -636,7 +636,7 @@ func sortedAscendingByID(c *an.Ctx, fn *ssa.Function, slice ssa.Value, at ssa.In
 	return false, "no sort of the listed items dominates their use"
 }
 
-// indexedField: v = load of s[idx].f -> (idx, f)
+// indexedField: v = load of s[idx].f -> (idx, f); the element may be a struct or a pointer to one.
 func indexedField(v ssa.Value) (ssa.Value, string) {
 	u, ok := v.(*ssa.UnOp)
 	if !ok || u.Op != token.MUL {
@@ -647,7 +647,11 @@ func indexedField(v ssa.Value) (ssa.Value, string) {
 		return nil, ""
 	}
 	f := fieldNameOf(fa)
-	ia, ok := fa.X.(*ssa.IndexAddr)
+	base := fa.X
+	if l, isLoad := base.(*ssa.UnOp); isLoad && l.Op == token.MUL {
+		base = l.X // element is a pointer: s[idx] is loaded first
+	}
+	ia, ok := base.(*ssa.IndexAddr)
 	if !ok {
 		return nil, ""
 	}
